@@ -356,6 +356,10 @@ def run(ctx):
     D.loops_visit_all(ctx, "R-C02.15")
 
     # ---- borrowed obligations (mechanisms owned by other properties that this property's verdict also rests on)
+    # a write journaled while an ingestion registers its tables gets a seqno below them and is skipped by the next replay: the ingestion holds the journal lock across finish()
+    ctx.borrow("C14", ["R-C14.2"], "R-C02.16")
+    # seqno draw, append, apply and publish of a write are one critical section under the journal lock (a memtable sealed in the middle of a batch makes replay skip its rest)
+    ctx.borrow("C14", ["R-C14.1"], "R-C02.17")
     # what was journaled must decode again: a decoder that rejects what the encoder writes loses acknowledged writes (read as a torn tail)
     ctx.borrow("C15", ["R-C15.3", "R-C15.6"], "R-C02.11")
     # items of a batch keep their journal order on replay
